@@ -33,7 +33,7 @@ pub fn info() -> PropInfo {
         id: "C09",
         run,
         replay,
-        rule: "cases = histories of builder calls: BytesStart::new + push_attribute/extend_attributes/with_attributes/set_name/clear_attributes written as Start or Empty, BytesEnd::new, BytesText::new, BytesCData::escaped (all pieces), BytesDecl::new, BytesPI::new, comments, DOCTYPE, Writer::create_element(..).with_attribute(s)..write_{text,cdata,pi}_content/write_empty/write_inner_content; payload strings from a markup-heavy generator. Reading the written bytes must give the constructed sequence after coalescing adjacent text events/CDATA pieces and dropping empty text; keys byte-equal, attribute values and text unescape to the original strings, CDATA concatenates to the original, declaration fields read back; the async writer (through a sink that accepts partial writes and returns Pending) produces the same bytes. Non-trivial = at least one payload contains a special character and the history contains an in-place edit or an element-builder call. The synchronous writer is also run through a sink that accepts partial (plain and vectored) writes and answers some calls with ErrorKind::Interrupted: same bytes as into a Vec. Payloads, names and builder-call lists occasionally long (16..300 characters, 20..45 calls). In 40% of the cases the three writers are ALSO run with indentation (space / tab x sizes 0,1,2,4,9,33,65,130) and with ElementWriter::new_line() in front of / between / after the attribute groups: no panic, and sync, partial-sink sync and async writers agree byte for byte (what indentation may insert is C19's subject).",
+        rule: "cases = histories of builder calls: BytesStart::new + push_attribute/extend_attributes/with_attributes/set_name/clear_attributes written as Start or Empty, BytesEnd::new, BytesText::new, BytesCData::escaped (all pieces), BytesDecl::new, BytesPI::new, comments, DOCTYPE, Writer::create_element(..).with_attribute(s)..write_{text,cdata,pi}_content/write_empty/write_inner_content; payload strings from a markup-heavy generator. Reading the written bytes must give the constructed sequence after coalescing adjacent text events/CDATA pieces and dropping empty text; keys byte-equal, attribute values and text unescape to the original strings, CDATA concatenates to the original, declaration fields read back; the async writer (through a sink that accepts partial writes and returns Pending) produces the same bytes. Non-trivial = at least one payload contains a special character and the history contains an in-place edit or an element-builder call. The synchronous writer is also run through a sink that accepts partial (plain and vectored) writes and answers some calls with ErrorKind::Interrupted: same bytes as into a Vec. Payloads, names and builder-call lists occasionally long (16..300 characters, 20..45 calls). In 40% of the cases the three writers are ALSO run with indentation (space / tab x sizes 0,1,2,4,9,33,65,130) and with ElementWriter::new_line() in front of / between / after the attribute groups and explicit write_indent() / write_indent_async() calls between items: no panic, and sync, partial-sink sync and async writers agree byte for byte (what indentation may insert is C19's subject).",
         assumptions: &["names are XML-name-like (no blanks, no '>'), comment/PI/DOCTYPE content is free of its own terminator (documented preconditions)", "declarations name UTF-8 (or no encoding): the written bytes are UTF-8"],
         level: "exploration",
         variants: &["full", "min"],
@@ -41,7 +41,11 @@ pub fn info() -> PropInfo {
 }
 
 fn write_sync<W: std::io::Write>(w: &mut Writer<W>, specs: &[EvSpec]) -> std::io::Result<()> {
-    for s in specs {
+    for (idx, s) in specs.iter().enumerate() {
+        // bit 3 of the new_line mask: an explicit write_indent() in front of every third item
+        if NL_MASK.with(|m| m.get()) & 8 != 0 && idx % 3 == 1 {
+            w.write_indent()?;
+        }
         match s {
             EvSpec::Element(name, attrs, content) => {
                 // (the async side writes an element with inner content as plain Start / End events: no new_line there)
@@ -94,7 +98,10 @@ fn write_sync<W: std::io::Write>(w: &mut Writer<W>, specs: &[EvSpec]) -> std::io
 /// the async writer: plain events through write_event_async, element builder through its
 /// async methods (inner content is flattened into start / inner / end events)
 fn write_async(w: &mut Writer<PartialSink>, specs: &[EvSpec]) -> Result<(), String> {
-    for s in specs {
+    for (idx, s) in specs.iter().enumerate() {
+        if NL_MASK.with(|m| m.get()) & 8 != 0 && idx % 3 == 1 {
+            block_on(w.write_indent_async()).map_err(|e| e.to_string())?;
+        }
         match s {
             EvSpec::Element(name, attrs, content) => {
                 // (the async side writes an element with inner content as plain Start / End events: no new_line there)
@@ -324,7 +331,7 @@ pub fn check(c: &Case) -> Verdict {
 
 fn run(ctx: &Ctx) {
     ctx.run_regress::<Case, _>(check);
-    let strat = || Box::new((prop::collection::vec(spec_strategy(2), 0..12), ((1u8..25, any::<bool>()).prop_map(|(m, v)| m | if v { 0x80 } else { 0 }), any::<u64>()), prop::option::weighted(0.4, (0u8..2, 0u8..8, 0u8..8))).prop_map(|(events, sink, indent)| Case { events, sink, indent }));
+    let strat = || Box::new((prop::collection::vec(spec_strategy(2), 0..12), ((1u8..25, any::<bool>()).prop_map(|(m, v)| m | if v { 0x80 } else { 0 }), any::<u64>()), prop::option::weighted(0.4, (0u8..2, 0u8..8, 0u8..16))).prop_map(|(events, sink, indent)| Case { events, sink, indent }));
     ctx.run_proptest_with("builder-histories", ctx.tier.pick(1_000_000, 10_000_000), strat, check);
 }
 
